@@ -9,10 +9,16 @@ PID = 'C06'
 ROUTINES = ['randmio_und_signed', 'randmio_dir_signed', 'null_model_und_sign', 'null_model_dir_sign']
 UND = {'randmio_und_signed', 'null_model_und_sign'}
 NULL = {'null_model_und_sign', 'null_model_dir_sign'}
-# wei_freq grid: exact rationals for the model; includes non-integer 1/wei_freq (.3, .7) and the half-way cases
-# 1/.4 = 2.5 and 1/(2/3) = 1.5 (np.round rounds half to even)
-FREQS = {0: '0/1', .1: '1/10', .2: '1/5', .25: '1/4', .3: '3/10', .4: '2/5', .5: '1/2', 2 / 3: '2/3', .7: '7/10', 1: '1/1'}
-FREQ_GRID = sorted(FREQS)
+# wei_freq grid: includes non-integer 1/wei_freq (.3, .7), the half-way cases 1/.4 = 2.5, 1/(2/3) = 1.5, 2/9, 2/49 (where the
+# double 1/wei_freq and the exact quotient round differently) and the smallest value the claim covers (1e-18: the period
+# 10^18 still fits an int64; below ~1.08e-19 np.round(1/wei_freq).astype(int) overflows - outside the claimed domain).
+# The model gets the *double* wei_freq as an exact fraction and reproduces fl(1/wei_freq) and np.round itself.
+FREQ_GRID = sorted([0, .1, .2, .25, .3, .4, .5, 2 / 3, .7, 1, 2 / 9, 2 / 49, 1e-18])
+
+
+def freq_str(x):
+    f = Fraction(float(x))
+    return '%d/%d' % (f.numerator, f.denominator)
 
 
 class NPProxy(object):
@@ -123,7 +129,7 @@ def lean_line(case, res):
     W = np.array(case['W']); n = len(W)
     s = '%s n=%d itr=%d R=%s draws=%s' % (case['routine'], n, case['itr'], mat_str(W), ','.join(map(str, res['draws'])) or '-')
     if case['routine'] in NULL:
-        s += ' freq=%s oracle=%s' % (FREQS[case['freq']], ';'.join(','.join(map(str, o)) or '-' for o in res['oracle']) or '-')
+        s += ' freq=%s oracle=%s' % (freq_str(case['freq']), ';'.join(','.join(map(str, o)) or '-' for o in res['oracle']) or '-')
     return s
 
 
@@ -195,7 +201,8 @@ def circulant(rs, n, und):
 
 
 def null_cfg(rs, c, big_itr=True):
-    c['itr'] = int(rs.choice([0, 1, 2, 5] if big_itr else [0, 1])); c['freq'] = FREQ_GRID[int(rs.randint(len(FREQ_GRID)))]
+    c['itr'] = int(rs.choice([0, 1, 2, 5] if big_itr else [0, 1]))
+    c['freq'] = FREQ_GRID[int(rs.randint(len(FREQ_GRID)))] if rs.rand() < .8 else float(rs.uniform(.02, 1))   # off-grid doubles too
     return c
 
 
@@ -261,6 +268,23 @@ def gen_cases(rs, tier):
             if und:
                 W1[1, 0] = W1[0, 1]
             add(W1, edge='full-one-negative')
+        # three nodes: no four distinct nodes exist, so nothing can be rewired; every 3-node ternary matrix with a + and a - cell
+        fam3 = list(ternary_family(3, und))
+        if not und and not big:
+            fam3 = [fam3[i] for i in rs.choice(len(fam3), 40, replace=False)]
+        for W in fam3:
+            add(W, family='ternary3', **({'itr': int(rs.choice([0, 1, 5]))}))
+        # asymmetric within np.allclose's relative tolerance: must be rejected like any other asymmetric input
+        if r == 'null_model_und_sign':
+            for n in (3, 4, 6):
+                for _ in range(3):
+                    W = signed_graph(rs, n, .8, .4, True) * 100000.0
+                    nz = np.argwhere(np.triu(W, 1) != 0)
+                    if len(nz) == 0:
+                        continue
+                    i, j = nz[rs.randint(len(nz))]
+                    W[i, j] += np.sign(W[i, j])            # e.g. W[i,j] = 100001, W[j,i] = 100000
+                    add(W, itr=1, freq=.5, malformed='asymmetric-within-rtol')
         # malformed stream: asymmetric input to the undirected routines (documented rejection / no claim)
         if und:
             for _ in range(6):
@@ -369,6 +393,10 @@ def main():
                        'history: the shuffled cases run in batches of 25, each batch sequentially in a fresh process, plus explicit sequences of sibling routines on '
                        'equal-size inputs; a failure is reported with the calls that preceded it in its process (replayed as history + case); '
                        'object-reuse probes (common.reuse_probe) on the same array object: re-weighted in place, shared with a sibling routine, returned array edited',
+                       'wei_freq is 0 or a double >= 1e-18 (below ~1.08e-19 np.round(1/wei_freq).astype(int) overflows: outside the claim); the model receives the double as an exact '
+                       'fraction and reproduces fl(1/wei_freq) and np.round (half to even) itself',
+                       'n < 4 (nothing can be rewired: the routines return their input, 6e1395a) and input asymmetric within np.allclose tolerance (rejected, e8bc00c) are generated and '
+                       'compared with the model like every other case',
                        'randmio_*_signed are called on empty-diagonal input (property quantifier); the null models clear the diagonal themselves']
     # T-gen: re-extract the core update steps from /repo's current source (translate/cores.py); the generated
     # obligations say the extracted IR is the reference program whose interpreter is proved equal to the model
@@ -420,7 +448,9 @@ def main():
         if c.get('malformed'):
             ck.count('malformed:' + c['malformed'])
             if rt == 'null_model_und_sign' and not (r['status'] == 'exc' and exc_kind(r['exc']) == 'BCTParamError'):
-                ck.violation(rt, 'rejects-asymmetric', {'case': c, 'history': hist[n_], 'status': r['status'], 'exception': r.get('exc')}, cond)
+                ck.violation(rt, 'rejects-asymmetric', {'case': c, 'history': hist[n_], 'status': r['status'], 'exception': r.get('exc'),
+                                                        'output': r.get('X')}, cond)
+                continue        # accepted although asymmetric: already a violation; the model (exact symmetry test) rejects
         elif r['status'] == 'exc':
             ck.violation(rt, 'raises', {'case': c, 'history': hist[n_], 'exception': r['exc']}, cond)
             continue
